@@ -606,7 +606,9 @@ def check_C07(tier, seed):
     for x in xs:
         w = x[0].split()
         if w[0] == "HR":
-            for d in range(0, int(w[3])):
+            c1 = int(w[3])
+            # siblings with fewer disk units (all of them for small counts, a few for large ones)
+            for d in (range(0, c1) if c1 <= 6 else sorted({0, 1, 2, c1 // 2, c1 - 1})):
                 extra.append((" ".join(w[:3] + [str(d)] + w[4:]), x[1], 1))
         elif w[0] in ("DR", "PD", "RV"):
             for c in ("DR", "PD", "RV"):
@@ -1346,6 +1348,7 @@ def _c15_process(res, rng, count):
         real = list(ex.map(lambda h: _proc_fresh_raw(list(h)), hs))
     model = core.driver().ask_many([("proc", list(h) + ["ENDPROC"]) for h in hs])
     nops = 0
+    tried = 0
     kinds = collections.Counter()
     for h, a, b in zip(hs, real, model):
         nops += len(h)
@@ -1360,9 +1363,14 @@ def _c15_process(res, rng, count):
                          f"{a[k] if k < len(a) else None!r} (implementation) vs "
                          f"{b[k] if k < len(b) else None!r} (process model)")
             # is it the PROPERTY that fails?  the object's own operations, alone, in a fresh interpreter
+            # (decided and shrunk for the first failing history only: one replay is what a report needs, and every
+            # further history costs hundreds of fresh interpreters)
+            if res.violations or tried >= 12:
+                continue
+            tried += 1
             v = _proc_property_violation(h, real_answers=a, upto=k)
             if v is not None:
-                small, v = _proc_shrink(list(h[:k + 1]), v)
+                small, v = _proc_shrink(list(h[:k + 1]), v, budget=150)
                 res.viol(["proc"] + small, v)
     res.stats["process_histories"] = len(hs)
     res.stats["process_ops"] = nops
